@@ -45,6 +45,21 @@ func (u *unit) prepare(o *oblig) {
 	var sk []binder
 	o.goalSk = u.skolemize(o.goal, &sk, 0)
 	pureSk := append([]binder(nil), sk...)
+	// stage 2 candidates: neighbours of the skolem constants (rows, indices shifted by one) and
+	// the element indices read from typed arrays in the goal
+	var extra []binder
+	for _, b := range pureSk {
+		if b.sort == "Int" {
+			extra = append(extra, binder{"(+ " + b.name + " 1)", b.sort}, binder{"(- " + b.name + " 1)", b.sort})
+		} else if strings.HasPrefix(b.sort, "(_ BitVec ") {
+			var w int
+			fmt.Sscanf(b.sort, "(_ BitVec %d)", &w)
+			extra = append(extra, binder{fmt.Sprintf("(bvadd %s (_ bv1 %d))", b.name, w), b.sort})
+		}
+	}
+	for _, a := range heapIndexTerms(o.goalSk, 12) {
+		extra = append(extra, binder{a, u.m.offSort()})
+	}
 	sk = append(sk, o.cands...)
 	sk = append(sk, u.ufApps(o.goalSk, 6)...)
 	for i := len(o.pc) - 1; i >= 0 && i >= len(o.pc)-4; i-- {
@@ -57,6 +72,7 @@ func (u *unit) prepare(o *oblig) {
 		sk = append(sk, binder{a, "(_ BitVec 64)"})
 	}
 	sk = dedupBinders(sk, 40)
+	sk2 := dedupBinders(append(append([]binder(nil), pureSk...), extra...), 40)
 	// relevance filter (E-matching discipline): an instance may not mention
 	// applications of spec functions that occur nowhere else in the query
 	known := map[string]bool{}
@@ -64,20 +80,32 @@ func (u *unit) prepare(o *oblig) {
 	for _, h := range append(append([]string{}, o.pc...), o.hints...) {
 		collectUfApps(h, known)
 	}
+	seenInst := map[string]bool{}
 	for _, h := range append(append([]string{}, o.pc...), o.hints...) {
-		seenInst := map[string]bool{}
 		if len(pureSk) > 0 {
 			// instances at the goal's own skolem constants are always kept
 			pi, _ := instances(h, pureSk, 0)
 			for _, g := range pi {
-				seenInst[g] = true
-				o.insts = append(o.insts, g)
+				if !seenInst[g] {
+					seenInst[g] = true
+					o.insts = append(o.insts, g)
+				}
 			}
 		}
 		inst, q := instances(h, sk, 0)
 		for _, g := range inst {
 			if !seenInst[g] && relevantInstance(g, known) {
+				seenInst[g] = true
 				o.insts = append(o.insts, g)
+			}
+		}
+		if len(extra) > 0 {
+			i2, _ := instances(h, sk2, 0)
+			for _, g := range i2 {
+				if !seenInst[g] && relevantInstance(g, known) && len(o.insts2) < 150 {
+					seenInst[g] = true
+					o.insts2 = append(o.insts2, g)
+				}
 			}
 		}
 		if q || strings.Contains(h, "(forall ") || strings.Contains(h, "(exists ") {
@@ -87,10 +115,14 @@ func (u *unit) prepare(o *oblig) {
 }
 
 func (u *unit) query(o *oblig, extra []string, withModel bool) string {
-	return u.queryMode(o, extra, withModel, false)
+	return u.queryStage(o, extra, withModel, false, 1)
 }
 
 func (u *unit) queryMode(o *oblig, extra []string, withModel, ground bool) string {
+	return u.queryStage(o, extra, withModel, ground, 1)
+}
+
+func (u *unit) queryStage(o *oblig, extra []string, withModel, ground bool, stage int) string {
 	var body strings.Builder
 	for _, p := range append(append([]string{}, o.pc...), o.hints...) {
 		if ground && (strings.Contains(p, "(forall ") || strings.Contains(p, "(exists ")) {
@@ -103,7 +135,11 @@ func (u *unit) queryMode(o *oblig, extra []string, withModel, ground bool) strin
 		}
 		body.WriteString("(assert " + p + ")\n")
 	}
-	for _, x := range o.insts {
+	allInsts := o.insts
+	if stage >= 2 {
+		allInsts = append(append([]string(nil), o.insts...), o.insts2...)
+	}
+	for _, x := range allInsts {
 		if ground && (strings.Contains(x, "(forall ") || strings.Contains(x, "(exists ")) {
 			continue
 		}
@@ -233,6 +269,20 @@ func (d *discharger) one(u *unit, o *oblig, extra []string) {
 			o.res, o.solver, o.ground, o.qsize = "unsat", name, true, len(gq)
 			done()
 			return
+		}
+		if len(o.insts2) > 0 {
+			// second ground attempt with the wider instance set
+			gq2 := u.queryStage(o, extra, false, true, 2)
+			gf2 := filepath.Join(d.dir, fmt.Sprintf("q%05d.ground2.smt2", id))
+			os.WriteFile(gf2, []byte(gq2), 0644)
+			res, name, _, secs := d.race(ctx, solvers[:2], gf2, d.timeoutMs)
+			o.secs += secs
+			if res == "unsat" {
+				removeQ(gf2)
+				o.res, o.solver, o.ground, o.qsize = "unsat", name, true, len(gq2)
+				done()
+				return
+			}
 		}
 	}
 	q := u.query(o, extra, false)
